@@ -145,10 +145,10 @@ class Ln(MathFunction):
     def evaluate(self, x, mapping, component, index_values):
         """Evaluate."""
         a = self.ufl_operands[0].evaluate(x, mapping, component, index_values)
-        try:
+        # math.log silently drops the imaginary part of a numpy complex number
+        if isinstance(a, numbers.Real):
             return math.log(a)
-        except TypeError:
-            return cmath.log(a)
+        return cmath.log(a)
 
 
 @ufl_type()
@@ -384,6 +384,9 @@ class Erf(MathFunction):
     def evaluate(self, x, mapping, component, index_values):
         """Evaluate."""
         a = self.ufl_operands[0].evaluate(x, mapping, component, index_values)
+        if not isinstance(a, numbers.Real):
+            # math.erf silently drops the imaginary part of a numpy complex number
+            raise TypeError("erf can only be evaluated for real arguments.")
         return math.erf(a)
 
 
